@@ -115,7 +115,7 @@ def numeric_strings(rnd, n):
             # arbitrary length: thousands of digits
             s = rnd.choice(["1", "9", "12345"]) + "0" * rnd.choice([100, 600, 5000, 40000]) + rnd.choice(["", ".5", "e-5000"])
         else:
-            s = rnd.choice(["0." + "0" * rnd.choice([10, 400, 40000]) + "1", "abc", "", "1x", "0x10", " 1", "1 ", "--1", "+5", "-0", "1e", "NaN", "inf", "12\x0034", ".", "-", "1e999999999999"])
+            s = rnd.choice(["0." + "0" * rnd.choice([10, 400, 40000]) + "1", "3.4028235e38", "3.4028236e38", "3.5e38", "-3.4028235e38", "1e39", "-1e300", "1e-46", "1.4e-45", "abc", "", "1x", "0x10", " 1", "1 ", "--1", "+5", "-0", "1e", "NaN", "inf", "12\x0034", ".", "-", "1e999999999999"])
         out.append(s.encode("latin1"))
     return out
 
@@ -189,6 +189,12 @@ def check(run):
                             oracle_fail.append((cfg, l, f"as<{name}>(\"{txt[:30]}\") = {e}", o))
             if f["is"] != "0000000000":
                 oracle_fail.append((cfg, l, "is<number>() false for a string", o))
+            # a string converts to float by the same rule as the stored number it denotes: as<float>() is the float nearest
+            # to what as<double>() returns (infinity beyond the float range, never 0 for a large value)
+            g64 = gen_doc_float(f["f64"])
+            g32 = gen_doc_float(f["f32"])
+            if not (math.isnan(g64) and math.isnan(g32)) and not same_float(g32, nearest_f32(g64)):
+                oracle_fail.append((cfg, l, f"as<float>(\"{txt[:30]}\") = the float nearest to as<double>() = {nearest_f32(g64)!r}", o))
     # copyArray: document -> C arrays (1-d with explicit length, 2-d, char arrays), destination inside guard elements
     ca_lines = []
     def small_elem():
